@@ -243,7 +243,7 @@ def _cyclic_records():
 def cyclic_case(draw):
     return dict(part="cyclic", rot=draw(st.integers(0, 13)), q=draw(strat.quat()),
                 shift=[draw(strat.fl(-50.0, 50.0)) for _ in range(3)], start=draw(st.sampled_from([1, 1, -4, 100])),
-                hyd=draw(st.booleans()), linear=draw(st.one_of(st.none(), strat.chain(cid="L", nmin=2, nmax=4))),
+                hyd=draw(st.booleans()), linear=draw(st.one_of(st.none(), strat.chain(cid="L", nmin=2, nmax=4).map(lambda c: {k: v for k, v in c.items() if k != "extra"}))),
                 ff=draw(st.sampled_from(["AMBER", "CHARMM", "PARSE", "TYL06", "SWANSON"])), cid=draw(st.sampled_from(["A", "C", "z"])))  # fmt: skip
 
 
